@@ -289,6 +289,10 @@ macro_rules! backend_impl {
                     let big = CKKSMeta { log_delta: ld as usize, log_budget: lb as usize + extra as usize * base2k };
                     let mut znx = CKKSPlaintextVecZnx::alloc(self.n.into(), base2k.into(), big);
                     znx.set_meta_checked(meta).ok()?;
+                    if ld > F64_PREC {
+                        // not reachable from f64 slots: an all-zero ZNX plaintext with this metadata
+                        return Some((znx, vec![0.0; m], vec![0.0; m]));
+                    }
                     rnx.to_znx(&mut znx).ok()?;
                     let (qre, qim) = self.decode_pt(&znx).unwrap_or((re, im));
                     Some((znx, qre, qim))
@@ -776,13 +780,15 @@ macro_rules! gen_impl {
                 push(&mut mach, &mut prog, st(&[ALLOC, r, 0, 0, sz]));
             }
             let fresh = |rng: &mut Rng, mach: &mut $m::Machine, prog: &mut Vec<Vec<i128>>, r: i128, push: &mut dyn FnMut(&mut $m::Machine, &mut Vec<Vec<i128>>, Vec<i128>) -> i128| {
-                let (_, _, sz) = mach.meta(r as usize);
+                let (_, _, mut sz) = mach.meta(r as usize);
+                if sz == 0 { sz = 1 + rng.below(maxsz as u64) as i128; push(mach, prog, st(&[ALLOC, r, 0, 0, sz])); }
                 let mk = sz * b;
                 let ld = rng.range(8, 45.min(mk as i64 - 2).max(8)) as i128;
                 let enc_k = if rng.below(8) == 0 { rng.range(1, mk as i64) as i128 } else { mk - rng.below(b as u64) as i128 }.max(1);
                 let room = (enc_k - ld).max(0);
                 let lbp = if rng.below(6) == 0 { rng.below(40) as i128 } else { rng.below(1 + room.min(24) as u64) as i128 };
-                let (kind, mag) = if rng.below(10) == 0 && room >= 3 { (2, (1i128 << (room.min(40) - 1)) - 2) } else { (rng.below(2) as i128 * 3, 0) };
+                // near the magnitude limit: constant slots of absolute value 2^(log_budget-1) - 2
+                let (kind, mag, lbp) = if rng.below(10) == 0 && room >= 3 && room <= 40 { (2, (1i128 << (room - 1)) - 2, room) } else { (rng.below(2) as i128 * 3, 0, lbp) };
                 push(mach, prog, st(&[ENCRYPT, r, 0, 0, ld, lbp, enc_k, rng.next() as u32 as i128, kind, mag]));
             };
             for r in 0..3 { fresh(rng, &mut mach, &mut prog, r, &mut push); }
@@ -808,6 +814,10 @@ macro_rules! gen_impl {
                 }
                 let (d, a, bb) = (d as i128, a as i128, bb as i128);
                 let aeff = al + abud;
+                let noncompact = |l: i128, bu: i128, sz: i128| (l + bu + b - 1) / b != sz;
+                let keep = defects && rng.below(2) == 0;
+                // products assert compact operands in poulpy-core (known class): compact first, as the crate's example does
+                let mut fix: Vec<i128> = Vec::new();
                 let off_a = (aeff - dmk).max(0);
                 let ptmeta = |rng: &mut Rng, budget: i128| -> (i128, i128) {
                     let l = if wild { rng.range(0, 60) as i128 } else { rng.range(4, 44) as i128 };
@@ -843,10 +853,10 @@ macro_rules! gen_impl {
                         let (srcl, resb) = if into { (al, (abud - off_a).max(0)) } else { (dl, dbud) };
                         let slack = (dmk - resb - srcl).max(0);
                         let l = if wild { rng.range(0, 56) as i128 } else { rng.range(2, (srcl + slack).clamp(2, 50) as i64) as i128 };
-                        let k = if rng.below(5) == 0 { (resb + l - rng.range(-3, 6) as i128).max(0) } else { resb + l };
+                        let k = if rng.below(5) == 0 { (resb + l - rng.range(-3, 6) as i128).max(1) } else { (resb + l).max(1) };
                         let fits = (k + b - 1) / b <= dsz;
                         let l = if !fits && !(defects && rng.below(2) == 0) { srcl.min(50) } else { l };
-                        let k = if !fits && !(defects && rng.below(2) == 0) { resb + l } else { k };
+                        let k = if !fits && !(defects && rng.below(2) == 0) { (resb + l).max(1) } else { k };
                         let op = *[[ADD_CZ_ASSIGN, SUB_CZ_ASSIGN], [ADD_CZ_INTO, SUB_CZ_INTO]][into as usize].get(rng.below(2) as usize).unwrap();
                         st(&[op, d, a, 0, l, k, parts, seed])
                     }
@@ -862,13 +872,14 @@ macro_rules! gen_impl {
                     }
                     12 => st(&[NEG_INTO, d, a]),
                     13 => st(&[NEG_ASSIGN, d]),
-                    14 | 15 => st(&[MUL_INTO, d, a, bb]),
-                    16 => st(&[MUL_ASSIGN, d, a]),
-                    17 => st(&[SQUARE_INTO, d, a]),
-                    18 => st(&[SQUARE_ASSIGN, d]),
+                    14 | 15 => { fix = vec![a, bb]; st(&[MUL_INTO, d, a, bb]) }
+                    16 => { fix = vec![d, a]; st(&[MUL_ASSIGN, d, a]) }
+                    17 => { fix = vec![a]; st(&[SQUARE_INTO, d, a]) }
+                    18 => { fix = vec![d]; st(&[SQUARE_ASSIGN, d]) }
                     19 | 20 => {
                         let (l, lbp) = ptmeta(rng, 20);
                         let op = *[MUL_PTZ_INTO, MUL_PTZ_ASSIGN, MUL_PTR_INTO, MUL_PTR_ASSIGN, MULADD_PTZ, MULSUB_PTZ, MULADD_PTR, MULSUB_PTR].get(rng.below(8) as usize).unwrap();
+                        fix = vec![if op == MUL_PTZ_ASSIGN || op == MUL_PTR_ASSIGN { d } else { a }];
                         let extra = if rng.below(5) == 0 { 1 } else { 0 };
                         st(&[op, d, a, 0, l, lbp, extra, seed, 0, b])
                     }
@@ -877,7 +888,7 @@ macro_rules! gen_impl {
                         let op = *[MUL_CZ_INTO, MUL_CZ_ASSIGN, MUL_CR_INTO, MUL_CR_ASSIGN, MULADD_CZ, MULSUB_CZ, MULADD_CR, MULSUB_CR].get(rng.below(8) as usize).unwrap();
                         st(&[op, d, a, 0, l, lbp, parts, seed])
                     }
-                    23 => st(&[if rng.below(2) == 0 { MULADD_CT } else { MULSUB_CT }, d, a, bb]),
+                    23 => { fix = vec![a, bb]; st(&[if rng.below(2) == 0 { MULADD_CT } else { MULSUB_CT }, d, a, bb]) }
                     24 => st(&[MULPOW2_INTO, d, a, 0, if wild { rng.below(70) as i128 } else { rng.below(4) as i128 }]),
                     25 => st(&[MULPOW2_ASSIGN, d, 0, 0, if wild { rng.below(70) as i128 } else { rng.below(4) as i128 }]),
                     26 => st(&[DIVPOW2_INTO, d, a, 0, if wild { rng.below(200) as i128 } else { rng.below(1 + (abud - off_a).clamp(0, 12) as u64) as i128 }]),
@@ -896,9 +907,9 @@ macro_rules! gen_impl {
                     }
                     33 => st(&[RESCALE_ASSIGN, d, 0, 0, if wild { rng.below(200) as i128 } else { rng.below(1 + dbud.clamp(0, 40) as u64) as i128 }]),
                     34 => st(&[ALIGN, d, 0, bb]),
-                    35 => st(&[COMPACT, d]),
+                    35 => if dl + dbud == 0 { st(&[NEG_ASSIGN, d]) } else { st(&[COMPACT, d]) },
                     36 => { let need = (dl + dbud + b - 1) / b; st(&[REALLOC, d, 0, 0, (need + rng.range(-1, 2) as i128).max(1)]) }
-                    37 => st(&[COMPACT_COPY, d, a]),
+                    37 => if aeff == 0 { st(&[NEG_INTO, d, a]) } else { st(&[COMPACT_COPY, d, a]) },
                     38 => {
                         if rng.below(3) == 0 { let (l, lbp) = ptmeta(rng, dbud); st(&[DECRYPT, d, 0, 0, l, lbp]) }
                         else { let l = rng.below(1 + dmk.min(50) as u64) as i128; st(&[SET_META, d, 0, 0, l, if wild { rng.below(400) as i128 } else { rng.below(1 + (dmk - l).max(0) as u64) as i128 }]) }
@@ -906,6 +917,18 @@ macro_rules! gen_impl {
                     _ => { fresh(rng, &mut mach, &mut prog, d, &mut push); continue; }
                 };
                 let _ = (bl, bbud, asz);
+                if fix.iter().any(|r| { let (l, bu, _) = mach.meta(*r as usize); l + bu == 0 }) {
+                    // products of never-encrypted registers make no sense: encrypt one instead
+                    let r = *fix.iter().find(|r| { let (l, bu, _) = mach.meta(**r as usize); l + bu == 0 }).unwrap();
+                    fresh(rng, &mut mach, &mut prog, r, &mut push);
+                    continue;
+                }
+                if !keep {
+                    for r in fix {
+                        let (l, bu, sz) = mach.meta(r as usize);
+                        if l + bu > 0 && l + bu <= sz * b && noncompact(l, bu, sz) { push(&mut mach, &mut prog, st(&[COMPACT, r])); }
+                    }
+                }
                 let status = push(&mut mach, &mut prog, s);
                 if status == ST_PANIC { break; }
                 let (l2, b2, s2) = mach.meta(d as usize);
